@@ -18,7 +18,7 @@ git apply $D/patch.diff || { echo "$TAG PATCH-DOES-NOT-APPLY"; exit 8; }
 T=$(timeout 900 /venv/bin/python -m pytest -q -p no:cacheprovider 2>&1 | tail -1)
 PYTHONPATH=$WT timeout 600 /venv/bin/python $D/demo.py > $OUT/$TAG.demo1 2>&1; R1=$?
 cd ${VERIF_HOME:-/verif}
-VERIF_JOBS=$JOBS VERIF_EVID_DIR=/tmp/ev/evid_$$ VERIF_REPO=$WT ./check $PID $TIER > $OUT/$TAG.$PID.$TIER.log 2>&1; RC=$?
+VERIF_JOBS=$JOBS VERIF_EVID_DIR=/tmp/ev/evid_$$ VERIF_REPO=$WT timeout ${SEEDEVAL_TIMEOUT:-2400} ./check $PID $TIER > $OUT/$TAG.$PID.$TIER.log 2>&1; RC=$?
 NV=$(grep -c "^VIOLATION" $OUT/$TAG.$PID.$TIER.log)
 X=$(grep -E "^counterexample|^INCONCLUSIVE|^HARNESS-ERROR" $OUT/$TAG.$PID.$TIER.log | head -3 | cut -c1-200 | tr '\n' '|')
 echo "$TAG check=$PID/$TIER rc=$RC violations=$NV demo0=$R0 demo1=$R1 tests='$T' :: $X"
